@@ -295,7 +295,7 @@ def summarise(records, tier, seed):
     cov = {
         "evaluations": ag["evaluations"],
         "distinct_nontrivial": len(ag["hashes"]),
-        "rule": "random + corpus models x backend {numpy, jax, C(ASan+UBSan)} x alias; evaluation = one generated call; non-trivial = >= 4 state slots "
+        "rule": "random + corpus models (+ fixed output shape, >= 12 states, and revisions of one model - same name and states, another dependency order - translated one after the other in the process) x backend {numpy, jax, C(ASan+UBSan)} x alias; evaluation = one generated call; non-trivial = >= 4 state slots "
         "checked against x + dt*rhs of the same module (bound 4u*max(|x|,|dt f|)); distinct by (structural hash, backend)",
         "samples": C.pick_samples(records),
         "per_class_cases": ag["classes"],
